@@ -45,7 +45,7 @@ ASSUMPTIONS = ["geometry matrices are float64 ndarrays with non-negative entries
                "initial guesses are None, Python float/int or float64 arrays; max_iterations >= 1; 0 < relaxation < 2",
                "for zero-length rays / unseen cells the docstring formula is read as 'no contribution'",
                "a minimiser is certified to relative gradient accuracy 1e-8 (scale |C|^2|x| + |C||d|)"]
-QUICK = dict(cases=3000, workers=2, timecap=40)
+QUICK = dict(cases=2000, workers=2, timecap=40)
 THOROUGH = dict(cases=150000, workers=16, timecap=600)
 REQUIRED = {"sart_iterate": 1000, "csart_iterate": 800, "sart_conv": 500, "csart_conv": 500, "sart_stop": 50,
             "csart_stop": 50, "sart_nonneg": 80, "csart_nonneg": 80, "fixed_point": 100, "nnls_kkt": 50,
@@ -173,6 +173,9 @@ def fixed_cases(tier):
         out.append(dict(s, nx=1, ny=1, m=1, wkind="dense"))
         out.append(dict(s, wscale=1e-6, xscale=1e8))
         out.append(dict(s, bkind="noisy_signed", noise=0.3, tikkind="lap4", alpha=0.5))
+    # regression witness of the scipy.optimize.nnls pass-through finding (one chord seeing 3 of 5 cells, identity Tikhonov)
+    out.append(dict(base, solver="nnls", nx=1, ny=5, m=1, wkind="explicit", W=[[0.0, 0.0, 0.804, 0.475, 0.583]],
+                    bkind="explicit", b=[0.001], alpha=0.102, tikkind="none"))
     s = dict(base, solver="svd")
     out += [dict(s), dict(s, bkind="zero"), dict(s, mods={"dup_cols": 2, "zero_rows": 1}), dict(s, wkind="zeros"),
             dict(s, nx=1, ny=1, m=1, wkind="dense"), dict(s, m=3), dict(s, m=30, wkind="lowrank", rank=2)]
@@ -439,7 +442,8 @@ def _run_nnls(case, ctx, W, b):
     if tau > 0:
         dual = float(max(0.0, -g.min())) / tau
         comp = float(np.max(np.abs(x * g))) / (tau * xinf) if xinf > 0 else 0.0
-        ctx.margin("nnls_kkt", max(dual, comp))
+        if max(dual, comp) <= 1.0:
+            ctx.margin("nnls_kkt", max(dual, comp))
     else:
         dual = 0.0 if g.min() >= 0 else np.inf
         comp = 0.0 if not np.any(x * g) else np.inf
@@ -473,10 +477,16 @@ def _run_nnls(case, ctx, W, b):
                  (src if upstream_kkt else "") + "a strictly positive component has a non-vanishing gradient: x is not the "
                  "constrained minimiser", j=j, g_j=float(g[j]), x_j=float(x[j]), tau=tau)
     t = 1e-8 * nd + 1e-10 * nC * nx
-    ctx.close(rnorm, rn, "nnls:scipy-nnls-rnorm-inconsistent" if upstream_rn else "nnls:residual-norm-inconsistent",
-              ("scipy.optimize.nnls itself reported a residual norm inconsistent with its own solution (passed through): "
-               if upstream_rn else "") + "reported residual norm differs from |Cx-d| of the returned x",
-              atol=t if t > 0 else 0.0, monitor="nnls_rnorm")
+    ctx.mon("nnls_rnorm")
+    err = abs(rnorm - rn)
+    if err <= t:
+        if t > 0:
+            ctx.margin("nnls_rnorm", err / t)
+    else:
+        ctx.viol("nnls:scipy-nnls-rnorm-inconsistent" if upstream_rn else "nnls:residual-norm-inconsistent",
+                 ("scipy.optimize.nnls itself reported a residual norm inconsistent with its own solution (passed through): "
+                  if upstream_rn else "") + "reported residual norm differs from |Cx-d| of the returned x",
+                 got=rnorm, want=rn, tol=t)
     ctx.nontrivial(bool(W.any()) and not bzero)
 
 
